@@ -263,9 +263,13 @@ pub fn gen_file_c(rng: &mut Rng, l: &L, opts: &Opts, patterns: &mut Vec<String>,
                 else if !l.decoy.is_empty() && rng.chance(1, 4) { rng.pick(l.decoy).to_string() }
                 else { rng.pick(l.code).to_string() };
             if inside && opts.rules && l.exts[0] == "md" && line.trim().is_empty() { continue; }
-            // grammars without free-form text: content lines are written as tag-free comment lines
-            let weak = ["yaml", "toml", "Makefile", "go.mod"].contains(&l.exts[0]);
-            let line = if inside && opts.rules && weak && !line.trim().is_empty() { format!("{} {}", l.line[0], line.trim()) } else { line };
+            // content lines of rule-bearing blocks must not break the grammar (tree-sitter's error recovery may
+            // swallow a later comment): they are written as tag-free comment lines, or as plain text in markup
+            let line = if inside && opts.rules && !line.trim().is_empty() {
+                if l.exts[0] == "md" || l.exts[0] == "html" || l.exts[0] == "xml" { line }
+                else if !l.line.is_empty() { format!("{}{} {}", &line[..line.len() - line.trim_start().len()], l.line[0], line.trim()) }
+                else { format!("/* {} */", line.trim()) }
+            } else { line };
             *text += &line.replace('\n', nl);
             *text += nl;
         }
@@ -294,7 +298,11 @@ pub fn gen_file_c(rng: &mut Rng, l: &L, opts: &Opts, patterns: &mut Vec<String>,
             } else {
                 let container = if l.exts[0] == "md" && !has_multiline && rng.chance(1, 3) { ["> ", "- ", "  - ", "> > "][rng.below(4)] } else { "" };
                 let style = if container.is_empty() { rng.below(4) } else { text += container; 0 };
-                let star = if l.star && rng.chance(1, 2) { " * " } else { "   " };
+                // decorated continuation lines; the blanks in front of the `*` may be any Unicode white space
+                // (inside a multi-line TAG only ASCII blanks separate attributes, so the decoration stays ASCII there)
+                let star = if l.star && rng.chance(1, 2) {
+                    if has_multiline { " * " } else { [" * ", " * ", "\t* ", "\u{a0}* ", "\u{3000}*", " \u{a0} * ", "\u{2003}* "][rng.below(7)] }
+                } else { "   " };
                 match style {
                     0 => text += &format!("{indent}{o}{}{c}", body.replace('\n', nl)),
                     1 => text += &format!("{indent}{o} intro{nl}{indent}{star}{}{nl}{indent} {c}", body.replace('\n', &format!("{nl}{indent}{star}"))),
